@@ -14,16 +14,3 @@ __CPROVER_ensures(IMPLIES(hsh == NULL, g_bin_appends == 0))
 __CPROVER_assigns(hsh != NULL: hsh->ref; g_bin_len, g_bin_appended, g_bin_appends)
 __CPROVER_frees(hsh);
 
-/* KSI_DataHasher_close: the hash object handed out is new or recycled, and in both cases completely initialised:
- * reference count 1, the hasher's context, imprint and length written by the provider call-back. */
-int KSI_DataHasher_close(KSI_DataHasher *hsr, KSI_DataHash **data_hash)
-__CPROVER_requires(hsr == g_hsr_p && __CPROVER_is_fresh(data_hash, sizeof(*data_hash)))
-__CPROVER_requires(g_bin_appends == 0 && g_bin_removes == 0 && g_bin_appended == NULL && g_bin_len < 1000000 && g_recycled.ref == 0 && !g_close_cb_called)
-__CPROVER_ensures(IMPLIES(__CPROVER_return_value == KSI_OK, *data_hash != NULL && (*data_hash)->ref == 1 && (*data_hash)->ctx == g_ctx_p &&
-		g_close_cb_called && g_close_cb_obj == *data_hash && (*data_hash)->imprint_length == g_close_cb_len && !hsr->isOpen))
-/* a recycled object is used exactly when the bin is not empty, and it leaves the bin */
-__CPROVER_ensures(IMPLIES(__CPROVER_return_value == KSI_OK && __CPROVER_old(g_bin_len) > 0, *data_hash == &g_recycled && g_bin_removes == 1 && g_bin_appends == 0))
-__CPROVER_ensures(IMPLIES(__CPROVER_return_value == KSI_OK && __CPROVER_old(g_bin_len) == 0, *data_hash != &g_recycled && g_bin_removes == 0 && g_bin_appends == 0))
-/* failure: nothing handed out; an object taken from the bin or allocated is returned to the bin (count 0) or released */
-__CPROVER_ensures(IMPLIES(__CPROVER_return_value != KSI_OK, *data_hash == __CPROVER_old(*data_hash) && g_recycled.ref == 0))
-__CPROVER_assigns(*data_hash, hsr->isOpen, g_recycled, g_bin_len, g_bin_appended, g_bin_appends, g_bin_removes, g_bin_remove_pos, g_close_cb_called, g_close_cb_obj, g_close_cb_len);
